@@ -148,6 +148,10 @@ func (f *File) isValidAlias(alias string) bool {
 }
 
 func (f *File) isDotImport(path string) bool {
+	if path == "C" {
+		// the "C" pseudo-package is always referred to as C
+		return false
+	}
 	if id, ok := f.hints[path]; ok {
 		return id.name == "." && id.alias
 	}
